@@ -67,8 +67,8 @@ def write_machine(scratch):
 
 
 def mc_module(full=True):
-    ms, pw, te = (MS, POW, TEV) if full else ([NONE, -5, 10, 300], [NONE, -50, 50, 150], [NONE, -100, 100, 2000])
-    table = TABLE if full else [c for c in TABLE if c['id'] in (2, 4, 6, 7)]
+    ms, pw, te = (MS, POW, TEV) if full else ([NONE, -5, 10, 300], [NONE, -50, 50, 150], [NONE, -100, 100])
+    table = TABLE if full else [c for c in TABLE if c['id'] in (2, 4, 6)]
     return """------------------------------ MODULE CoilMC ------------------------------
 EXTENDS Coil
 MCNONE == %d
